@@ -30,12 +30,16 @@ MANIFEST = {
                 "(chain model printed; heap model and cell model run in lockstep, any divergence marks the line), and an independent "
                 "Python reference (plain lists, sorted(), capacity contract) is evaluated on the implementation's output.",
         "note": "Trusted: Lean kernel + the three standard axioms; the hand translation of the three headers into the models (validated by the "
-                "correspondence run, not proved).  Modelled rather than verified: element type int; List::swap, insert(pos, list), copy "
-                "construction and assignment exist only in the chain model (the lockstep heap replays them as the insert sequences the C++ "
-                "code performs; swap exchanges the heaps); PoolList shares the heap model of List (its relinking code is a copy); "
-                "allocation never fails; separate containers never alias.  Self-assignment, arguments aliasing the container "
-                "(a.append(a[0]), l.append(l)) and construction/destruction counting belong to C04 and are not generated here.  "
-                "No theorem is partial.",
+                "correspondence run, not proved); the growth mask and the items-per-block constants are read from the current sources by a "
+                "translator and the theorems reserve_policy_source / block_items_source are stated over them.  Modelled rather than verified: "
+                "element types int and Tagged; copy construction and assignment exist only in the chain model (the lockstep heap replays them "
+                "as the insert(end, list) the C++ code performs); List::swap is proved on a separate two-sentinel shared heap (ptr_swap) that is "
+                "not run in lockstep (the lockstep exchanges the heaps); PoolList shares the heap model of List (its relinking code is a copy); "
+                "allocation never fails for the history sizes; distinct containers never alias.  The container itself or a reference into it as "
+                "argument (a.append(a), a.append(a[i]), a.resize(n, a[i]), a = a, l.append(l), l.prepend(l), l.insert(pos, l), l = l) is part of "
+                "the model, of refines and of the generated histories (reference: as if the argument had been copied first; released storage is "
+                "overwritten by the harness allocator so that a stale read shows as wrong contents).  Construction/destruction counting belongs "
+                "to C04.  No theorem is partial.",
         "design_ref": "DESIGN.md 3/C03",
     }
 }
@@ -873,7 +877,8 @@ def build(ctx):
 
 def check(ctx):
     ctx.assumptions += [
-        "element type int (trivially copyable); construction/destruction counting, self-assignment and arguments aliasing the container are C04's",
+        "element types int and Tagged (trivially copyable); construction/destruction counting is C04's; self-assignment and arguments aliasing "
+        "the container are generated and specified as-if-copied-first",
         "chain model of List/PoolList: (node id, value) pairs in link order + free list + block count (node = 4*block+slot); the heap model "
         "(prev/next/value per item, sentinel, free list through prev) is proved to represent it for insert/remove/clear/sort and is run in "
         "lockstep by the driver; the harness checks forward/backward walks and the null predecessor of the first item on every observation",
